@@ -4,6 +4,8 @@ import (
 	"encoding/json"
 	"fmt"
 	"sort"
+	"sync/atomic"
+	"time"
 
 	flyt "github.com/mark3labs/flyt"
 
@@ -110,6 +112,32 @@ func runStoreCase(cs *StoreCase) (key, detail string, stats map[string]int) {
 type storeProbe func(si int, st StoreStep, s *flyt.SharedStore, ref map[string]any) (key, detail string)
 
 func runStoreCaseWith(cs *StoreCase, z []zoo.Named, probe storeProbe) (key, detail string, stats map[string]int) {
+	return runStoreCaseProg(cs, z, probe, nil)
+}
+
+// runStoreCaseGuarded runs the sequence on its own goroutine: a store call that never returns (the goroutine is
+// parked on a lock although nobody else has the store) is a verdict — the store stopped answering, a map never does.
+func runStoreCaseGuarded(cs *StoreCase) (key, detail string, stats map[string]int, incon bool) {
+	var prog atomic.Int64
+	prog.Store(-1)
+	var k, d string
+	var st map[string]int
+	stuck, state, inc := guarded(10*time.Second, func() { k, d, st = runStoreCaseProg(cs, zoo.Fixed(), nil, &prog) })
+	if stuck {
+		si := int(prog.Load())
+		op := "?"
+		if si >= 0 && si < len(cs.Steps) {
+			op = cs.Steps[si].Op
+		}
+		return "stopped-answering", fmt.Sprintf("step %d (%s): the call into the store never returned — its goroutine is parked in %s and no other goroutine has this store; a plain map answers every operation, also after a read that failed", si, op, state), map[string]int{}, false
+	}
+	if inc {
+		return "", "", map[string]int{}, true
+	}
+	return k, d, st, false
+}
+
+func runStoreCaseProg(cs *StoreCase, z []zoo.Named, probe storeProbe, prog *atomic.Int64) (key, detail string, stats map[string]int) {
 	stats = map[string]int{}
 	// a second, independently built instance of the same value list: equal contents, distinct containers — an
 	// overwrite with an equal-looking value is still an overwrite
@@ -129,6 +157,9 @@ func runStoreCaseWith(cs *StoreCase, z []zoo.Named, probe storeProbe) (key, deta
 		}
 	}()
 	for si, st := range cs.Steps {
+		if prog != nil {
+			prog.Store(int64(si))
+		}
 		k := keyName(st.Key)
 		v := z[st.Val%len(z)].V
 		if z2 != nil && (si+st.Val)%2 == 1 {
@@ -151,6 +182,14 @@ func runStoreCaseWith(cs *StoreCase, z []zoo.Named, probe storeProbe) (key, deta
 				_ = s.GetMap(k)
 				var a any
 				_ = s.Bind(k, &a)
+				// into destinations of other types as well (may fail: a failed read is still only a read)
+				var t struct{ X int }
+				_ = s.Bind(k, &t)
+				var m map[string]string
+				_ = s.Bind(k, &m)
+				var sl []float32
+				_ = s.Bind(k, &sl)
+				_ = s.Bind("never-set", &t)
 			}()
 		case "set-nil":
 			s.Set(k, nil)
@@ -337,14 +376,25 @@ func init() {
 
 func runC14(c *Cfg) {
 	r := c.Rep
+	var stuckSeen atomic.Bool
 	n := c.Pick(8000, 500000)
 	parallel(c, n, func(i int) {
 		cs := genStoreCase(c, i, 200)
 		if i%5 == 4 {
 			cs = genChurnCase(c, i)
 		}
-		key, detail, stats := runStoreCase(cs)
+		if stuckSeen.Load() {
+			return
+		}
+		key, detail, stats, incon := runStoreCaseGuarded(cs)
 		r.Eval()
+		if incon {
+			r.Incon("a store sequence did not finish and its goroutine was not parked on a lock")
+			return
+		}
+		if key == "stopped-answering" {
+			stuckSeen.Store(true)
+		}
 		for k, v := range stats {
 			r.Count(k, int64(v))
 		}
@@ -371,7 +421,7 @@ func replayC14(c *Cfg, spec json.RawMessage) {
 		fmt.Println("cannot parse:", err)
 		return
 	}
-	key, detail, stats := runStoreCase(&cs)
+	key, detail, stats, _ := runStoreCaseGuarded(&cs)
 	fmt.Println("stats:", stats)
 	if key != "" {
 		fmt.Printf(" * finding %s: %s\n", key, detail)
